@@ -16,7 +16,7 @@ class Untranslatable(Exception):
     pass
 
 
-KNOWN_ENUMS = {"Option": ["None", "Some"], "Result": ["Ok", "Err"], "ControlFlow": ["Continue", "Break"]}
+KNOWN_ENUMS = {"Option": ["None", "Some"], "Result": ["Ok", "Err"], "ControlFlow": ["Continue", "Break"], "IpAddr": ["V4", "V6"], "SocketAddr": ["V4", "V6"]}
 
 
 # ------------------------------------------------------------------------------------------------
@@ -467,6 +467,8 @@ class Executor:
         m = re.match(r"^(?:[\w:<>, ]+::)?(\w+)::(\w+)$", t)
         if m and m.group(1) in self.enums and m.group(2) in self.enums[m.group(1)]:
             return ("enum", m.group(1), self.enums[m.group(1)].index(m.group(2)))
+        if re.match(r"^[A-Za-z_][\w:]*$", t) or t == "()" or t.startswith("PhantomData"):
+            return ("unit",)      # field-less ADT constant (unit struct, PhantomData): no leaves
         raise Untranslatable("constant " + t)
 
     def operand(self, st, fn, text, frame, sort_hint=None):
@@ -570,12 +572,19 @@ class Executor:
                 st.refs[dst.key()] = v[1]
             elif v[0] == "agg":
                 self.copy_aggregate(st, dst.key(), v[1].key())
+            elif v[0] == "unit":
+                pass
             elif v[0] == "enum":
-                self.write_place(st, fn, Place(dst.root, dst.projs), Val(bvconst(v[2], 64), ("bv", 64, True)), frame) if False else None
                 st.store[dst.key() + "#discr"] = Val(bvconst(v[2], 64), ("bv", 64, True))
             else:
                 raise Untranslatable("assign " + repr(v))
 
+        m = re.match(r"^(\*const|\*mut) .* from \((.*)\)$", rhs)
+        if m:
+            first = split_top(m.group(2))[0]
+            v = self.operand(st, fn, first, frame)
+            st.refs[dst.key()] = v[1] if (not isinstance(v, Val) and v[0] == "ref") else Place("*" + dst.key())
+            return
         # references
         m = re.match(r"^&(mut |raw const |raw mut )?(.*)$", rhs)
         if m:
@@ -802,7 +811,7 @@ class Executor:
         if pure and dsort is None:
             # pure call with an aggregate result: no memory is havocked; the result's leaves are
             # input-like variables named after the call, so that pre-conditions can constrain them
-            sig = short + "(" + ",".join(d[1].t if d[0] == "val" else str(d[1]) for d in desc) + ")"
+            sig = (short + "(" + ",".join(d[1].t if d[0] == "val" else str(d[1]) for d in desc) + ")").replace("|", "/")
             self.clear_prefix(st, dst.key())
             st.alias[dst.key()] = "call:" + sig
             st.calls.append((short, desc, "call:" + sig, None))
